@@ -340,12 +340,6 @@ pub fn pipeline_programs(seed: u64, family: &str, n: usize, emit: &mut dyn FnMut
     for idx in 0..n {
         let mut r = Rng::for_case(seed, family, idx);
         let (cfg, prog) = match r.below(10) {
-            0..=4 => ("30000000,10,50,250,394,0".to_string(), gen_idiom_program(&mut r)),
-            5..=7 => {
-                let flavour = r.below(4);
-                let p = vm::gen_program(&mut r, flavour);
-                (vm::gen_cfg(&mut r, flavour), p)
-            }
             5 if r.chance(1, 2) => ("30000000,10,50,250,394,0".to_string(), crate::fam::idiom::mask_chain_program(&mut r)),
             5 if r.chance(1, 2) => crate::fam::idiom::near_limit_program(&mut r),
             3 | 4 if r.chance(1, 5) => crate::fam::idiom::near_limit_program(&mut r),
@@ -354,6 +348,12 @@ pub fn pipeline_programs(seed: u64, family: &str, n: usize, emit: &mut dyn FnMut
             7 if r.chance(1, 3) => ("30000000,10,50,250,394,0".to_string(), crate::fam::idiom::hashed_literal_program(&mut r)),
             7 if r.chance(1, 2) => ("30000000,10,50,250,394,0".to_string(), crate::fam::idiom::self_ref_program(&mut r)),
             8 if r.chance(1, 2) => ("30000000,10,50,250,394,0".to_string(), crate::fam::idiom::storage_free_program(&mut r)),
+            0..=4 => ("30000000,10,50,250,394,0".to_string(), gen_idiom_program(&mut r)),
+            5..=7 => {
+                let flavour = r.below(4);
+                let p = vm::gen_program(&mut r, flavour);
+                (vm::gen_cfg(&mut r, flavour), p)
+            }
             8 => {
                 // random bytes
                 let len = 1 + r.below(80);
